@@ -1,5 +1,6 @@
 import NomtModel.Core.Outcome
 import NomtModel.Core.VUpdate
+import NomtModel.Core.Bits
 /-!
 Executable mirror of `core/src/proof/path_proof.rs::verify_update` *including* its argument checks
 and its panic sites (`Outcome.panic`).  The hashing core is `verifyUpdate` of `VUpdate.lean`, for
@@ -8,15 +9,6 @@ is what C18 is about.
 -/
 namespace Nomt
 variable {Node VH : Type} [DecidableEq Node] [DecidableEq VH] (H : Hasher Node VH)
-
-/-- lexicographic order on bit strings, a proper prefix being smaller (Rust `BitSlice: Ord`, `[u8;32]: Ord`) -/
-def bitsLt : List Bool → List Bool → Bool
-  | [], [] => false
-  | [], _ :: _ => true
-  | _ :: _, [] => false
-  | a :: as, b :: bs => if a == b then bitsLt as bs else (!a && b)
-
-def bitsLe (a b : List Bool) : Bool := !bitsLt b a
 
 inductive VUErr where
   | pathsOutOfOrder | opsOutOfOrder | opOutOfScope | pathWithoutOps | rootMismatch
